@@ -647,3 +647,23 @@ Proof.
   intros H w. pose proof (run_KINV ops (init_sys pen) KINV_empty (ops_clean3b_ok ops _ H)) as (_ & _ & _ & _ & _ & _ & _ & S).
   exact S.
 Qed.
+
+(* C05 for every item of the model in one statement: an unloaded item runs nothing; a loaded item runs exactly
+   the decision table's set for its effective state -- its own state when it is held directly, the state of the
+   item that holds it when it is a charge or an autocharge -- its run modes and its type *)
+Theorem every_item_runs_the_table pen ops :
+  ops_clean3b (init_sys pen) ops = true ->
+  let w := s_w (run (init_sys pen) ops) in
+  forall i it, get_item w i = Some it ->
+    (i_loaded it = None -> i_running it = []) /\
+    (i_loaded it <> None -> forall st r, item_state w i = Some st -> expected_st w st it = Some r ->
+                            set_equiv (i_running it) r).
+Proof.
+  intros H w i it Hi.
+  pose proof (run_KINV ops (init_sys pen) KINV_empty (ops_clean3b_ok ops _ H)) as (_ & R & K & _).
+  destruct (direct_dec it) as [D|D].
+  - destruct (R i it (fun x => x) Hi D) as (C1 & _ & _ & _ & C5). split; [exact C1|].
+    intros Hl st r Hst Hr. rewrite (item_state_direct w i it Hi D) in Hst. injection Hst as <-.
+    apply (C5 Hl r). exact Hr.
+  - destruct (kk_ra _ K i it (fun x => x) Hi D) as (C1 & _ & C3). split; assumption.
+Qed.
